@@ -27,6 +27,14 @@ _COUNTER = itertools.count()
 MAXLEN = 40
 POOL = 8
 N_FUNCS = 5
+
+
+def _mapped_value(fid, cx):
+    """What mapped function `fid` returns for (canonical) input cx.  Function 4 is a look-up that finds nothing for
+    about half of its inputs and says so the way Python functions do: it returns None - a value like any other."""
+    if fid == 4 and h64(repr(cx)) & 1:
+        return None
+    return ("f", fid, cx)
 FPS = [(25, 1), (30, 1), (30000, 1001), (24, 1), (15, 2), (12, 1)]
 
 
@@ -192,7 +200,7 @@ class Lazy(Machine):
                 self.ctx.fault("mapped_function_raises")
                 self.ctx.probe("fault_map_fired")
                 raise InjectedIOError("injected failure of mapped function %d" % fid)
-            return ("f", fid, cx)
+            return _mapped_value(fid, cx)
         return f
 
     def _canon(self, x):
@@ -249,7 +257,7 @@ class Lazy(Machine):
             if e[1] in self._armed_map_view:
                 self._armed_map_view.discard(e[1])
                 raise InjectedIOError()
-            return ("f", e[1], x)
+            return _mapped_value(e[1], x)
         if t == "file":
             fo = self.folders[e[1]]
             if fo["how"] == 2:
@@ -447,13 +455,15 @@ class Lazy(Machine):
     def _video_fault_pending(self, v):
         s = self.videos[v]
         cur = s.current
-        return s.fail_next_spawn or s.fail_next_read or (cur is not None and cur.returncode == -9 and not getattr(cur, "_kill_seen", False))
+        return s.fail_next_spawn or s.fail_next_read or (cur is not None and (cur.returncode == -9 or getattr(cur, "_cut", False))
+                                                           and not getattr(cur, "_kill_seen", False))
 
     def _clear_video_faults(self, v):
         s = self.videos[v]
         s.fail_next_spawn = False
         s.fail_next_read = False
         if s.current is not None and s.current.returncode == -9:
+            # (a cut that no read has run into yet stays pending: poll() still says "running")
             s.current._kill_seen = True
 
     def step(self, op):
@@ -725,8 +735,13 @@ class Lazy(Machine):
                 self.lm_fault = True
             elif k == "v_kill":
                 if s.current is not None and s.current.returncode is None:
-                    s.current.kill_now()
-                    self.ctx.fault("ffmpeg_process_killed")
+                    if op["how"] % 2:
+                        s.current.cut_now([0.25, 0.5, 0.9][op["i"] % 3])
+                        if getattr(s.current, "_cut", False):
+                            self.ctx.fault("ffmpeg_pipe_cut_mid_frame_unnoticed")
+                    else:
+                        s.current.kill_now()
+                        self.ctx.fault("ffmpeg_process_killed")
 
     def _faulted_read(self, op):
         """Fault placed inside an operation: arm something element k of a list depends
@@ -781,6 +796,11 @@ class Lazy(Machine):
         elif how == 4:
             s.fail_next_spawn = True
             s.fail_next_read = True
+        elif how == 5:
+            if s.current is not None and s.current.returncode is None:
+                s.current.cut_now([0.25, 0.5, 0.9][op["i"] % 3])
+                if getattr(s.current, "_cut", False):
+                    self.ctx.fault("ffmpeg_pipe_cut_mid_frame_unnoticed")
         self._read("vread_with_fault[%d]" % kk, ll, [model[kk]], lambda: [ll[kk]])
         self._read("vread_after_fault[%d]" % kk, ll, [model[kk]], lambda: [ll[kk]])
 
